@@ -401,6 +401,30 @@ class PTable(EngineBase):
                         e["op_id"] += shift
                 ops[at:at] = seq
                 world["overlap"] = True
+        if prop == "C02" and rng.random() < 0.06:
+            # the program looks at itself, fork()s and goes on in the child;
+            # its old PID becomes one more process that may exit and be
+            # recycled
+            pre = [{"op": "new_self"}]
+            if rng.random() < 0.5:
+                pre.append({"op": "is_running", "h": 0})
+            pre.append({"op": "ev", "ev": {"ev": "fork_self", "pid": 1001}})
+            for e in inside:
+                e["op_id"] += len(pre)
+            ops[0:0] = pre
+            world["pool"] = world["pool"] + [1000]
+            for _ in range(rng.randrange(2, 6)):
+                at = rng.randrange(len(pre), len(ops) + 1)
+                for e in inside:
+                    if e["op_id"] >= at:
+                        e["op_id"] += 1
+                ops.insert(at, rng.choice([
+                    {"op": "new", "slot": len(world["pool"]) - 1},
+                    {"op": "ev", "ev": self.new_proc_ev(
+                        rng, 1000, world["pool"][:-1], "reuse")},
+                    {"op": "ev", "ev": {"ev": "vanish", "pid": 1000}},
+                    {"op": "eq", "h": 0, "h2": rng.randrange(64)},
+                    {"op": "is_running", "h": 0}]))
         for j, op in enumerate(ops):
             op["id"] = j
         return {"prop": prop, "world": world, "ops": ops, "inside": inside}
@@ -618,6 +642,13 @@ class PTable(EngineBase):
                 st["handles"][-1].blind = True
                 st["probe"]("handle_built_while_start_unreadable")
             return "handle"
+        if kind == "new_self":
+            obj = psutil.Process()
+            cur = k.procs.get(k.self_pid)
+            st["handles"].append(Handle(obj, obj.pid, cur.inc, idx,
+                                        st["steps"]))
+            st["probe"]("handle_on_self")
+            return "handle"
         if kind == "new_popen":
             acc0 = len(k.acclog)
             try:
@@ -800,7 +831,8 @@ class PTable(EngineBase):
 
     def _track_gone(self, psutil, st, op, out):
         h = st.get("cur_handle")
-        if h is None or op["op"] in ("new", "new_popen", "new_bad", "iter",
+        if h is None or op["op"] in ("new", "new_popen", "new_self", "new_bad",
+                                     "iter",
                                      "pids",
                                      "pid_exists", "boot_time"):
             return
